@@ -388,6 +388,9 @@ def write_catalog(filename, catalog, fmt=None, meta=None, prefix=None):
         construct a dict of the data
         this method preserves the data types in the VOTable
         """
+        # numpy.float32 values print with only 8 digits in some formats
+        for c in catalog:
+            c._sanitise()
         tab_dict = {}
         name_list = []
         for name in catalog[0].names:
